@@ -623,6 +623,20 @@ class Models:
         def _string_new(ex, args, info):
             return StrV([], StrV.intern_id(b''))
 
+        @M.path('str', 'chars')
+        def _chars(ex, args, info):
+            return Opaque('Chars', deref(args[0]))
+
+        @M.rx(r'^<(?:std::str::|core::str::)?Chars(?:<\'_>)? as Iterator>::count$', 'Chars::count (number of bytes that are not UTF-8 continuation bytes)')
+        def _chars_count(ex, m, args, callee, dest):
+            sv = args[0].payload
+            if sv.data is None:
+                raise Unsupported('chars().count() of an opaque string')
+            tot = z3.BitVecVal(0, 64)
+            for b in sv.data:
+                tot = tot + z3.If((b.t & 0xC0) != 0x80, z3.BitVecVal(1, 64), z3.BitVecVal(0, 64))
+            return Sc(z3.simplify(tot), 'usize')
+
         @M.path('String', ['push_str', 'push'])
         def _push_str(ex, args, info):
             dst, src = deref(args[0]), deref(args[1])
@@ -1056,9 +1070,14 @@ class Models:
         @M.path({'slice'}, ['copy_from_slice', 'clone_from_slice'])
         def _copy_from_slice(ex, args, info):
             d, s = args[0], args[1]
-            if d.n != s.n:
-                raise PanicPath('copy_from_slice: length mismatch', ex.site)
-            for i, x in enumerate(s.items()):
+            if isinstance(s, Ptr):
+                s = s.load()
+            src = list(s.data) if isinstance(s, StrV) else (list(s.items) if isinstance(s, (VecM, ArrayV)) else s.items())
+            if not isinstance(d, SliceRef):
+                d = SliceRef(d, 0, len(d.load().items))
+            if d.n != len(src):
+                raise PanicPath('copy_from_slice: source slice length (%d) does not match destination slice length (%d)' % (len(src), d.n), ex.site)
+            for i, x in enumerate(src):
                 d.set(i, copy_val(x))
             return Unit()
 
